@@ -139,9 +139,9 @@ def shard_stream(sh):
     admitted = []
     real = cr.compute_batch_ranking
 
-    def hooked(rows, *a, **k):
-        admitted.extend([list(r) for r in rows])
-        return real(rows, *a, **k)
+    def hooked(line_tmp_storage, *a, **k):
+        admitted.extend([list(r) for r in line_tmp_storage])
+        return real(line_tmp_storage, *a, **k)
     cr.compute_batch_ranking = hooked
     for run in range(8 if sh.tier == 'quick' else 40):
         fmt = rng.choice(['ob-raw-dump', 'csv-raw'])
@@ -279,7 +279,8 @@ def shard_sources(sh):
     admitted = []
     real = cr.compute_batch_ranking
 
-    def hooked(rows, *a, **k):
+    def hooked(line_tmp_storage, *a, **k):
+        rows = line_tmp_storage
         admitted.extend([list(r) for r in rows])
         if any(c is None for r in rows for c in r):
             # the observation point of this property is the rows entering a mini-batch; what the batch stages do with cells reported
